@@ -18,7 +18,9 @@ from minecraft.networking.types.basic import (Type, Boolean, UnsignedByte, Byte,
                                                String, UUID, PrefixedArray)
 from minecraft.networking.connection import ConnectionContext
 
-from pyvc.driver import Unit
+import json
+import os
+from pyvc.driver import Unit, REPO
 from pyvc.values import (SInt, SBool, SReal, SStr, SBytes, Blob, W, mk_bool, And, Or, Not, Implies, Unsupported,
                          to_real, ite)
 from pyvc.models import OutSocket, InStream, ArbitraryStream, slice_blob
@@ -1288,6 +1290,89 @@ class Dispatch(Unit):
         return dict(confirmed=False, call='(dispatch)', observed='')
 
 
+class OptimisedInterpreter(Unit):
+    """"Decoding a strict prefix raises" must not depend on how the interpreter was started: `python -O` (PYTHONOPTIMIZE)
+    removes every `assert`, so a truncation guard written as an assert vanishes there (seeded change C02-r13).  Obligation:
+    no `assert` statement in the wire-type modules (closed scan); bounded: the prefix checks of every self-delimiting type
+    re-run in a `python -O` child process on the real code.  A hit of the scan alone is undecided (an assert that guards
+    nothing is harmless); with a failing input from the -O run it is a violation."""
+    prop = 'C02'
+    name = 'C02.optimised-interpreter'
+    int_mode = 'int'
+    functions = ('minecraft/networking/types/*.py [closed scan: assert statements]',)
+
+    @staticmethod
+    def scan():
+        import ast as _ast
+        import glob
+        hits = []
+        for path in sorted(glob.glob(os.path.join(os.path.dirname(B.__file__), '*.py'))):
+            tree = _ast.parse(open(path, encoding='utf-8').read(), path)
+            for node in _ast.walk(tree):
+                if isinstance(node, _ast.Assert):
+                    hits.append('%s:%d' % (os.path.basename(path), node.lineno))
+        return hits
+
+    def run(self, I):
+        hits = self.scan()
+        I.E.check('frame.no-guard-is-an-assert', not hits, kind='frame',
+                  note='assert statements in the wire-type modules (removed under python -O): %s' % ', '.join(hits[:6]) if hits else
+                       'no assert statement in the wire-type modules')
+        return None
+
+    def replay(self, model, label):
+        return replay_under_O()
+
+    def bounded(self, rng, tier):
+        rp = replay_under_O()
+        return dict(name='C02.prefixes-under-python-O', evaluations=rp['n'], bound='every strict prefix of sample encodings of the '
+                    'self-delimiting types, decoded in a `python -O` child process', failures=[dict(call=rp['call'],
+                    observed=rp['observed'], witness='python-O')] if rp['confirmed'] else [])
+
+
+_UNDER_O = r"""
+import io, sys, json
+from minecraft.networking.types import (String, VarIntPrefixedByteArray, ShortPrefixedByteArray, UUID, Integer, Long, Short,
+                                        UnsignedLong, Double, Float, VarInt, VarLong, Boolean, Byte)
+from minecraft.networking.packets import PacketBuffer
+assert False, 'must be removed: this child has to run with -O'
+samples = [(String, 'hello wörld'), (String, 'x' * 200), (VarIntPrefixedByteArray, bytes(range(40))),
+           (ShortPrefixedByteArray, bytes(range(9))), (UUID, '12345678-9abc-def0-1234-56789abcdef0'), (Integer, 70000),
+           (Long, -5), (Short, 300), (UnsignedLong, 2 ** 63 + 1), (Double, 1.5), (Float, 2.5), (VarInt, 300), (VarLong, 2 ** 40 + 5)]
+bad, n = None, 0
+for T, v in samples:
+    buf = PacketBuffer()
+    T.send(v, buf)
+    enc = buf.get_writable()
+    for cut in range(len(enc)):
+        n += 1
+        try:
+            r = T.read(io.BytesIO(enc[:cut]))
+        except Exception:
+            continue
+        bad = '%s.read on the first %d of the %d bytes encoding %r returned %r instead of raising' % (T.__name__, cut, len(enc), v, r)
+        break
+    if bad:
+        break
+print(json.dumps(dict(bad=bad, n=n)))
+"""
+
+
+def replay_under_O():
+    import subprocess
+    import sys
+    env = dict(os.environ)
+    env['PYTHONPATH'] = REPO + os.pathsep + env.get('PYTHONPATH', '')
+    env.pop('PYTHONOPTIMIZE', None)
+    try:
+        out = subprocess.run([sys.executable, '-O', '-c', _UNDER_O], env=env, capture_output=True, timeout=60)
+        res = json.loads(out.stdout.decode().strip().splitlines()[-1])
+    except Exception as e:      # noqa
+        return dict(confirmed=False, n=0, call='python -O child process', observed='did not run: %r' % (e,))
+    return dict(confirmed=res['bad'] is not None, n=res['n'], call='truncated encodings decoded under `python -O`',
+                observed=res['bad'] or 'every strict prefix raises')
+
+
 def units(tier):
     us = [IntScalar(T) for T in (Boolean, UnsignedByte, Byte, Short, UnsignedShort, Integer, Long, UnsignedLong)]
     us += [ScalarPrefix(T) for T in (Boolean, UnsignedByte, Byte, Short, UnsignedShort, Integer, Long, UnsignedLong,
@@ -1298,7 +1383,7 @@ def units(tier):
     us += [LengthPrefixCut()]
     us += [PrefixedArrayUnit(VarInt, Byte), PrefixedArrayUnit(Integer, Short), PrefixedArrayUnit(VarInt, VarInt),
            PrefixedArrayUnit(VarInt, Byte, nested=True)]
-    us += [PrefixedArrayAnyLength(), Dispatch(), BufferContract()]
+    us += [PrefixedArrayAnyLength(), Dispatch(), BufferContract(), OptimisedInterpreter()]
     # VarInt / VarLong are scalar wire types too: their byte-level contracts (C03) are claimed here as well
     from . import c03
     for u, nm in ((c03.ReadArbitrary(VarInt), 'C02.VarInt.read'), (c03.ReadArbitrary(c03.VarLong), 'C02.VarLong.read'),
